@@ -498,7 +498,9 @@ class AwareASTNode(DataClassSerializeMixin):
         return None
 
     def _find_attach_collision(
-        self, operation: t.Literal["create", "attach", "replace"]
+        self,
+        operation: t.Literal["create", "attach", "replace"],
+        seen: dict[str, AwareASTNode] | None = None,
     ) -> tuple[AwareASTNode, AwareASTNode] | None:
         """Checks whether `_attach_inner` would succeed, without changing anything.
 
@@ -510,16 +512,23 @@ class AwareASTNode(DataClassSerializeMixin):
             ASTNodeRegistryCollisionError: If this node's id (or the id of a detached node
                 in the subtree) is already in the registry
         """
-        if self.id in AwareASTNode._nodes:
+        if seen is None:
+            seen = {}
+
+        # The id must be free in the registry and unique among the nodes that will be attached
+        existing_node = AwareASTNode._nodes.get(self.id, seen.get(self.id))
+        if existing_node is not None:
             raise ASTNodeRegistryCollisionError(
                 new_node=self,
-                existing_node=AwareASTNode._nodes[self.id],
+                existing_node=existing_node,
                 operation=operation,
             )
 
+        seen[self.id] = self
+
         for c in self.get_child_nodes():
             if c.detached:
-                if (ret := c._find_attach_collision(operation=operation)) is not None:
+                if (ret := c._find_attach_collision(operation=operation, seen=seen)) is not None:
                     return ret
             elif not c.is_attached_root:
                 assert c.parent is not None
